@@ -28,6 +28,17 @@ CHECKS = {
         design='§4 C13'),
 }
 
+CHECKS['C07'] = dict(
+    technique='TLA+ spec Process.tla (process-wide caches as a state machine): TLC checks HistoryIndependent/CacheCoherent on the '
+              'intended protocol and refutes the pinned and by-path protocols; TLC-simulated behaviours are executed in one real '
+              'interpreter each and compared with fresh-process references; random histories validated by Trace_Process.tla',
+    text='The cache protocol of get_all_rules/normalize_merchant/parse_expression is an explicit state machine; TLC exhausts it '
+         'and generates operation sequences which are replayed into the real code, every classification being compared with the '
+         'same call made in a freshly forked interpreter; recorded random histories are validated by the trace spec.',
+    note='rule semantics uninterpreted in the model; a fixed concrete world of rule files/transactions/expressions chosen to make '
+         'stale state visible; fork() of a parent that has only imported tally is taken as a fresh process',
+    design='§4 C07')
+
 NOT_YET = {}
 
 
